@@ -106,7 +106,6 @@ def encSlot : Slot → Json
 def encErr : Err → String
   | .unknown => "Unknown" | .noMatching => "NoMatching" | .ambiguous => "Ambiguous"
   | .argument => "ArgumentException" | .mappingTranslation => "MappingTranslation"
-  | .pyTypeError => "TypeError"
 
 def encBound (b : Bound) : List (String × Json) :=
   [("pos", jl (b.pos.map fun s => match s with | some s => encSlot s | none => .null)),
